@@ -843,6 +843,21 @@ pub fn w6(ctx: &mut Ctx, _tier: Tier, sink: Sink) {
         m.extend_from_slice(&body);
         cases.push((Entry::Message, m));
     }
+    // very many records in a bare AVP region (no message can hold them: only the list entry point):
+    // 200 000 six-octet AVPs, and 50 000 eight-octet ones followed by an unusable length
+    {
+        let mut body = Vec::with_capacity(1_200_000);
+        for _ in 0..200_000 {
+            body.extend_from_slice(&avp_record(0x01, 0, 39, &[]));
+        }
+        cases.push((Entry::AvpList, body));
+        let mut body = Vec::with_capacity(400_006);
+        for _ in 0..50_000 {
+            body.extend_from_slice(&avp_record(0x01, 0, 9, &[0x12, 0x34]));
+        }
+        body.extend_from_slice(&avp_header(0x01, 3, 0, 9));
+        cases.push((Entry::AvpList, body));
+    }
     // bare AVP region longer than any length field can describe
     {
         let mut body = Vec::new();
